@@ -261,11 +261,15 @@ func fillViaHelper(c *Ctx, fn, dec *ssa.Function) bool {
 			}
 			ai, di := -1, -1
 			for k, a := range hc.Call.Args {
-				rd, isCall := a.(*ssa.Call)
-				if !isCall || len(rd.Call.Args) == 0 {
-					continue
+				colObj := a
+				if tn := typeName(a.Type()); !strings.HasSuffix(tn, "csv.OptionalColumn") && !strings.HasSuffix(tn, "csv.RequiredColumn") {
+					rd, isCall := a.(*ssa.Call)
+					if !isCall || len(rd.Call.Args) == 0 {
+						continue
+					}
+					colObj = rd.Call.Args[0]
 				}
-				if ci, _ := resolveColumn(rd.Call.Args[0], 0); ci != nil {
+				if ci, _ := resolveColumn(colObj, 0); ci != nil {
 					switch ci.name {
 					case "arrival_time":
 						ai = k
@@ -285,8 +289,15 @@ func fillViaHelper(c *Ctx, fn, dec *ssa.Function) bool {
 				for _, hb := range h.Blocks {
 					for _, hin := range hb.Instrs {
 						call, ok := hin.(*ssa.Call)
-						if !ok || staticCallee(call) != dec || call.Call.Args[0] != ssa.Value(prm) {
+						if !ok || staticCallee(call) != dec {
 							continue
+						}
+						if call.Call.Args[0] != ssa.Value(prm) {
+							// the helper was handed the column object and reads the cell itself
+							rd, isRd := call.Call.Args[0].(*ssa.Call)
+							if !isRd || len(rd.Call.Args) == 0 || rd.Call.Args[0] != ssa.Value(prm) || !strings.HasSuffix(calleeName(rd), "Column).Read") {
+								continue
+							}
 						}
 						sd := &side{call: call}
 						for _, r := range *call.Referrers() {
